@@ -70,7 +70,7 @@ def check_case(case, fenced=True):
         ids = db_sqlite.select_ids(sql)
     except sqlite3.Error as e:
         return ("engine-error", "%r -> WHERE %s -> sqlite3: %s" % (text, sql, e))
-    bad, stats = semcheck.compare(t, case["rows"], set(ids), fences=known_ids(PROPERTY_ID) if fenced else ())
+    bad, stats = semcheck.compare(t, case["rows"], set(ids), fences=(set(known_ids(PROPERTY_ID)) if fenced else set()) | {"int-div-truncates"})
     case["_stats"] = stats
     if bad:
         return (bad[0], "%r -> WHERE %s ; %s" % (text, sql, bad[1]))
@@ -124,7 +124,8 @@ EXH_LEAVES = {"Int": [("id", "i1", ()), ("lit", "int", "2"), ("id", "i2", ())],
 EXH_ROWS = [
     {"i1": a, "i2": b, "r1": 0.5, "s1": s, "s2": "a", "b1": bb, "t1": "2020-01-01T00:00:00", "d1": "2020-01-01"}
     for a, b, s, bb in [(1, 2, "a", True), (3, -1, "b", False), (0, 0, "a", None), (-2, 3, None, True),
-                        (None, 2, "a", False), (7, None, "", True), (2, 2, "A", False), (10, -7, "a'b", None)]
+                        (None, 2, "a", False), (7, None, "", True), (2, 2, "A", False), (10, -7, "a'b", None),
+                        (7, 3, "ba", True), (-7, 3, "aa", False), (5, -3, "a", True), (100, 7, "xa", None)]
 ]
 
 
@@ -160,6 +161,25 @@ def exhaustive_terms():
             yield ("cmp", c, ("cmp", c2, I[0], I[1]), ("lit", "bool", "true"))
             yield ("cmp", c, ("lit", "bool", "false"), ("cmp", c2, I[0], I[1]))
             yield ("cmp", c, ("cmp", c2, I[0], I[1]), ("cmp", c2, I[1], I[2]))
+
+
+def arithmetic_shapes():
+    """Every arithmetic operator pair in both nestings, unary minus over/under each operator,
+    indexof/length templates as operands."""
+    ar = ["add", "sub", "mul", "div", "mod"]
+    a, b, c = EXH_LEAVES["Int"]
+    s1, s2 = ("id", "s1", ()), ("id", "s2", ())
+    for o1 in ar:
+        for o2 in ar:
+            yield ("bin", o1, ("bin", o2, a, b), c)
+            yield ("bin", o1, a, ("bin", o2, b, c))
+        yield ("un", "neg", ("bin", o1, a, b))
+        yield ("bin", o1, ("un", "neg", a), b)
+        yield ("bin", o1, a, ("un", "neg", b))
+        yield ("bin", o1, ("call", "indexof", (), (s1, s2)), b)
+        yield ("bin", o1, a, ("call", "indexof", (), (s1, s2)))
+        yield ("bin", o1, a, ("call", "length", (), (s1,)))
+    yield ("un", "neg", ("call", "indexof", (), (s1, s2)))
 
 
 def plan(tier, seed, scale):
@@ -205,13 +225,27 @@ def run_task(task, seed, acc):
         for t in exhaustive_terms():
             for style in ("minimal", "full"):
                 one({"term": to_json(t), "rows": EXH_ROWS, "style": style})
+        # value-level sweep: for every arithmetic shape E and every value v it takes on some row,
+        # the filter `E eq v` must select exactly the rows where E evaluates to v
+        n_val = 0
+        for e in arithmetic_shapes():
+            vals = set()
+            for row in EXH_ROWS:
+                c = evalref.Ctx(evalref.row_from_storage(row), "sql", set(), None, {"int-div-truncates"})
+                v = evalref.ev(e, c)
+                if v is not evalref.U and v is not None and isinstance(v, int):
+                    vals.add(v)
+            for v in sorted(vals):
+                n_val += 1
+                one({"term": to_json(("cmp", "eq", e, ("lit", "int", str(v)))), "rows": EXH_ROWS, "style": "minimal"})
         acc.extra["exhaustive"] = True
+        acc.extra["value_level_filters"] = n_val
         return
     strat = st.tuples(gen_typed.pred(task["depth"], Fg), gen_typed.rows_strategy(),
                       st.sampled_from(["minimal", "minimal", "full", "redundant"]), st.integers(0, 2 ** 20))
 
     def fn(tup):
         t, rows, style, sseed = tup
-        one({"term": to_json(t), "rows": rows, "style": style, "style_seed": sseed})
+        one({"term": to_json(t), "rows": semcheck.confuse_rows(t, rows, sseed), "style": style, "style_seed": sseed})
 
     hyp_run(strat, fn, task["n"], seed * 1000 + task["shard"])
